@@ -79,18 +79,20 @@ pub fn run_case(f: &[&str]) -> String {
 
     let res = std::panic::catch_unwind(std::panic::AssertUnwindSafe(|| {
         let rd = |d: Vec<u8>| Pieces { d, pos: 0, sizes: pieces.clone(), i: 0 };
-        // every constructor ends in a Response<Pieces> so that the reader hands out scripted pieces
-        let mut r: Response<Pieces> = match ctor {
-            "new" => Response::new(StatusCode(st), hs.clone(), rd(body.clone()), len, None),
+        // every constructor ends in a response over `Pieces` (behind a Box, so that `boxed()` can be one of
+        // the operations) so that the reader hands out scripted pieces
+        let bx = |p: Pieces| -> Box<dyn Read + Send> { Box::new(p) };
+        let mut r: Response<Box<dyn Read + Send>> = match ctor {
+            "new" => Response::new(StatusCode(st), hs.clone(), bx(rd(body.clone())), len, None),
             "data" => {
                 let r0 = Response::from_data(body.clone());
                 let dl = r0.data_length();
-                r0.with_data(rd(body.clone()), dl)
+                r0.with_data(bx(rd(body.clone())), dl)
             }
             "string" => {
                 let r0 = Response::from_string(String::from_utf8(body.clone()).unwrap());
                 let dl = r0.data_length();
-                r0.with_data(rd(body.clone()), dl)
+                r0.with_data(bx(rd(body.clone())), dl)
             }
             "file" => {
                 // Response::from_file on a real temporary file: the declared length is the file size
@@ -99,12 +101,12 @@ pub fn run_case(f: &[&str]) -> String {
                 let r0 = Response::from_file(std::fs::File::open(&path).unwrap());
                 let _ = std::fs::remove_file(&path);
                 let dl = r0.data_length();
-                r0.with_data(rd(body.clone()), dl)
+                r0.with_data(bx(rd(body.clone())), dl)
             }
             "empty" => {
                 let r0 = Response::empty(st);
                 let dl = r0.data_length();
-                r0.with_data(rd(Vec::new()), dl)
+                r0.with_data(bx(rd(Vec::new())), dl)
             }
             _ => panic!("ctor {}", ctor),
         };
@@ -118,13 +120,22 @@ pub fn run_case(f: &[&str]) -> String {
                         let v = unhex(it.next().unwrap());
                         r = r.with_header(mk_header(&n, &v).unwrap());
                     }
+                    // add_header through &mut (with_header is the by-value form of the same operation)
+                    "A" => {
+                        let mut it = rest.splitn(2, ':');
+                        let n = unhex(it.next().unwrap());
+                        let v = unhex(it.next().unwrap());
+                        r.add_header(mk_header(&n, &v).unwrap());
+                    }
+                    // boxed(): the same response behind a trait object (identity in the model)
+                    "B" => r = r.boxed(),
                     "S" => r = r.with_status_code(rest.parse::<u16>().unwrap()),
                     "T" => r = r.with_chunked_threshold(rest.parse::<usize>().unwrap()),
                     "D" => {
                         let mut it = rest.splitn(2, ':');
                         let d = unhex(it.next().unwrap());
                         let l = opt_usize(it.next().unwrap());
-                        r = r.with_data(rd(d), l);
+                        r = r.with_data(bx(rd(d)), l);
                     }
                     _ => panic!("op {}", op),
                 }
